@@ -17,7 +17,7 @@ func init() {
 			"(only-known) a peer entry is written only on the found-edge of the lookup of that peer's node record; (own-lastseen) the stored timestamp is that peer record's LastSeen; " +
 			"(evict-predicate) an entry is removed exactly under timestamp <= now - ExpireInterval with now the value written to the node's LastSeen, ExpireInterval = 2*KeepaliveInterval, and removed <=> appended to the returned inactive list; " +
 			"(persisted) every success path stores the node record (and, in the persistent driver, the peer set) once; " +
-			"(reply-wiring) InvalidPeers derives from the returned inactive list only, ActivePeers from the NodePeers result read after the update. Round 2: the reported peer id reaches the registered-node lookup verbatim (no string transformation outside the repository's own conversions). Round 4 (refresh): in the loop over the reported peers every iteration passes the lookup of the peer's record (failed parse/read edges excepted) and every found record's LastSeen is written to the tracked set before the next iteration.",
+			"(reply-wiring) InvalidPeers derives from the returned inactive list only, ActivePeers from the NodePeers result read after the update. Round 2: the reported peer id reaches the registered-node lookup verbatim (no string transformation outside the repository's own conversions). Round 4 (refresh): in the loop over the reported peers every iteration passes the lookup of the peer's record (failed parse/read edges excepted) and every found record's LastSeen is written to the tracked set before the next iteration. Round 5: (reported-id) EnodeID chooses by the text's shape, never by a fallible call's outcome; retry closures.",
 		NotDecided: []string{"not decided: the history-level 'exactly if' statement over arbitrary keep-alive histories; behaviour at the boundary instant"},
 	}
 }
@@ -448,6 +448,45 @@ func runC11(p *an.Prog, r *an.Run, tier string) {
 			}
 		}
 		r.Check(len(bad) == 0, "persisted", kind, m.Pos(), "node record (and peer set) stored once on every success path", "%s", strings.Join(dedup(bad), "; "))
+	}
+
+	checkRetryClosures(p, r)
+
+	// ---- reported-id: which of a peer description's two names is taken for its node id depends only on the shape of
+	// the text (long enough to hold a public key), never on whether some parser accepted the rest of the string: a
+	// report whose address part a parser dislikes (an IPv6 zone, say) must not silently switch to the other name — the
+	// pool would look up an id nobody registered, so a live, reported peer goes untracked and a stale one undeclared
+	if eid := p.Method("ethnode", "PeerInfo", "EnodeID"); eid != nil {
+		r.Analysed(an.FuncName(eid))
+		var eb []string
+		nRet := 0
+		for _, fn := range regionFuncs(p, eid) {
+			an.AllInstrs(fn, func(in ssa.Instruction) {
+				ret, ok := in.(*ssa.Return)
+				if !ok || len(ret.Results) == 0 || fn != eid {
+					return
+				}
+				nRet++
+				for _, c := range an.ControllingIfs(ret.Block()) {
+					for _, nd := range p.Derives(0, c.If.Cond).Nodes {
+						if an.IsErrorType(nd.Type()) {
+							eb = append(eb, "the id returned at "+p.Pos(ret.Pos())+" is chosen by the outcome of a fallible call ("+p.Pos(c.If.Pos())+"): a peer description that call rejects is reported under its other name")
+						}
+						if tup, ok := nd.Type().(*types.Tuple); ok {
+							for i := 0; i < tup.Len(); i++ {
+								if an.IsErrorType(tup.At(i).Type()) {
+									eb = append(eb, "the id returned at "+p.Pos(ret.Pos())+" is chosen by the outcome of a fallible call ("+p.Pos(c.If.Pos())+"): a peer description that call rejects is reported under its other name")
+								}
+							}
+						}
+					}
+				}
+			})
+		}
+		r.Floor("enodeid-returns", nRet, 2)
+		r.Check(len(eb) == 0, "reported-id", an.FuncName(eid), eid.Pos(), "the reported id is chosen by the shape of the enode text only", "%s", strings.Join(dedup(eb), "; "))
+	} else {
+		r.Undec("reported-id", "ethnode.PeerInfo.EnodeID", token.NoPos, "anchor not found")
 	}
 
 	// ---- reply-wiring
